@@ -397,6 +397,10 @@ def gen_cases(tier, seed):
     for n in (2, 3, 4):
         for k in (0, 1):
             cases.append(dict(kind='inplace', n=n, k=k))
+    for n in (1, 2, 3, 4, 6):
+        for k in (0, 1):
+            for sc in ('small', 'large', 'mixed'):
+                cases.append(dict(kind='matrix', family='diagdom', n=n, k=k, perm=None, scale=sc))
     cases.append(dict(kind='int', n=1, vals=[-1, 0, 1, 2], prefix=[]))
     for a in [-1, 0, 1, 2]:
         cases.append(dict(kind='int', n=2, vals=[-1, 0, 1, 2], prefix=[a]))
@@ -466,6 +470,12 @@ def run_case(case, ctx):
         else:
             base = diagdom(case['n'], case['k']) if case['family'].startswith('diagdom') else hilbert_plus(case['n'], case['c'])
             M = [list(base[i]) for i in case['perm']] if case.get('perm') else base
+            if case.get('scale'):
+                # badly scaled but perfectly regular matrices (powers of two: the scaling itself is exact)
+                n_ = len(M)
+                sc = {'small': [2.0 ** -30] * n_, 'large': [2.0 ** 30] * n_,
+                      'mixed': [2.0 ** (-30 if j % 2 == 0 else 30) for j in range(n_)]}[case['scale']]
+                M = [[M[i][j] * sc[j] for j in range(n_)] for i in range(n_)]
         judge_matrix(M, case['family'], ctx, dict(case, M=M), only=case.get('only'))
     elif k == 'colloc':
         M = collocation_matrix(case)
